@@ -73,7 +73,7 @@ enum Dec {
     /// not base64 at all (foreign character, data after padding, impossible length) or the bytes
     /// are not UTF-8 (a String cannot carry them): must be an error
     Invalid(&'static str),
-    /// RFC 4648 lets a decoder choose (partial / excess padding, non-zero trailing bits): an error,
+    /// RFC 4648 lets a decoder choose (partial / excess padding): an error,
     /// or exactly this text
     Gray(&'static str, Option<String>),
 }
@@ -119,7 +119,11 @@ fn ref_b64_decode(input: &str, url_safe: bool) -> Dec {
         return Dec::Gray("partial or excess padding", text);
     }
     if trailing_nonzero {
-        return Dec::Gray("non-zero trailing bits", text);
+        // Not the encoding of ANY byte string (the encoder always leaves the unused bits zero): the
+        // text is invalid input, and a decoder that takes it maps two different texts ("YQ==",
+        // "YR==") to one string. The engine's decoders are built without `allow_trailing_bits`
+        // (seeded change C20-11 switched it on while tidying the two configurations into one).
+        return Dec::Invalid("non-zero trailing bits: not the encoding of any byte string");
     }
     match text {
         Some(t) => Dec::Valid(t),
@@ -1011,7 +1015,7 @@ fn main() {
     );
     run.assume("base64 / percent-encoding / serde_json / slug (deunicode) crates are exercised only through the contrib filters; the oracles (RFC 4648 tables, percent codec, RFC 8259 parser, class tables) are independent re-implementations");
     run.assume("`urlencode` is judged against its doc comment (Python urllib.parse.quote with `/` safe), `urlencode_strict` against 'every non-alphanumeric character is escaped'; the case of hex digits is not pinned");
-    run.assume("base64 inputs whose acceptance RFC 4648 leaves to the decoder (partial / excess padding, non-zero trailing bits) may be refused or decoded; everything else is pinned");
+    run.assume("base64 inputs with partial or excess padding may be refused or decoded (the engine's decoders are deliberately built padding-indifferent); a text whose last symbol carries non-zero unused bits is not the encoding of any byte string and counts as invalid input (strict reading of RFC 4648 section 3.5, the base64 crate's default, which the engine keeps); everything else is pinned");
     run.assume("json: non-finite floats are outside the statement (only 'no panic, valid JSON or error' is checked for them); bytes may appear as an array of byte values or, when valid UTF-8, as that string; floats are compared numerically");
     run.assume("slug: beyond the output alphabet, the ASCII letters and digits of the input must survive lower-cased and in order (the documented examples); transliteration of other characters is not pinned");
 
